@@ -52,15 +52,21 @@ META = {
         "dominate each exit are classified: the scan (for loop or `return any(...)`) visits the whole list, no negative or computed "
         "answer and no break leaves it under a condition on the current entry, every positive answer is dominated by `type part == "
         "type` and a sub-target test, the union of the positive answers accepts exactly bare type / type.subtype / type.*, the two "
-        "parts come from split('.', 1) guarded by `'.' in entry` resp. from (entry, None); conditional expressions are branches and "
-        "split / predicate helpers are followed with parameters substituted. "
+        "parts come from split('.', 1) guarded by `'.' in entry` resp. from (entry, None), or from entry.partition('.') (whose bare "
+        "sentinel is ''); conditional expressions are branches and split / predicate helpers are followed with parameters substituted. "
         "R5: the value returned by create_warning (None when suppressed) is only discarded, returned by a wrapper whose call sites "
         "are judged, or put into a node list under a presence test (`[x] if x else []`, `if x: out.append(x)`, `x or []`, or a helper "
         "doing that with its parameter); a branch with other statements, an unguarded list placement (None among the nodes) and "
-        "`replace(old, x)` (another node's removal depends on it, unless the other branch removes it) are violations. "
+        "`replace(old, x)` (another node's removal depends on it, unless the other branch removes it) are violations; so is a "
+        "condition on the children (`X.children`, `len(X)`, truth value) of the node X given as append_to= that can be reached after "
+        "the call before X is rebound or unconditionally extended - its outcome depends on whether the message node was appended. "
         "R6: the Sphinx log record's type=/subtype= and the '<message> [type.subtype]' text of every message node are built from "
         "the same two tag strings (text built by a helper is followed), and the renderer wrapper forwards each argument to the "
-        "parameter of the same name."
+        "parameter of the same name. "
+        "R7: the documented catalogue - the myst-warnings directive - renders 'myst.' + a string that is evaluated, as a function of "
+        "each enum member's (name, value) read from the enum's syntax tree, through comprehensions over MystWarnings / __members__ / "
+        "ModuleAnalyzer.attr_docs (tabled: keyed by (class qualname, attribute NAME)) and str transforms; it must equal the member's "
+        "value, the tag that is emitted."
     ),
     "not_decided": (
         "per-document equality of the outputs under different suppress lists (needs the documents); Sphinx's own logger-side "
@@ -73,6 +79,8 @@ META = {
         "create_warning and its private helpers are the only callers of the suppression matcher (checked, R4a) and never pass None for type/subtype, so None tests of these parameters are unobservable",
         "names tested by a dominating branch are not reassigned between the test and the exit it guards",
         "docutils Reporter.warning and nodes.system_message always return a node, so an emitter helper returns None exactly on its suppressed branch",
+        "sphinx.pycode.ModuleAnalyzer.attr_docs maps (class qualname, attribute name) to the doc-comment lines (used only by R7 when the directive iterates it)",
+        "a suppress entry with a trailing dot ('type.') is outside the three documented forms (str.partition and split('.', 1) treat it differently)",
     ],
 }
 
@@ -1185,11 +1193,15 @@ class _Forms:
         self.aliases: list[tuple[str, str]] = []
         self.split_sites: list[tuple[ast.AST, FunctionInfo, list[tuple]]] = []  # (construct, function, facts that hold there)
         self.split_calls: list[tuple[ast.Call, FunctionInfo]] = []
+        self.partition_calls: list[tuple[ast.Call, FunctionInfo]] = []
+        self.partition_tails: set[str] = set()
         self._pred_cache: dict[int, tuple] = {}
         local = [n for st in body for n in ast.walk(st)]
         for n in local:
             if self.is_split(n):
                 self.split_calls.append((n, fi))  # type: ignore[arg-type]
+            if self.is_partition(n):
+                self.partition_calls.append((n, fi))  # type: ignore[arg-type]
             if isinstance(n, ast.Assign):
                 if len(n.targets) != 1:
                     self.unknown |= {self.prefix + x for x in _names(n)}
@@ -1217,6 +1229,9 @@ class _Forms:
 
     def is_split(self, e: ast.AST) -> bool:
         return isinstance(e, ast.Call) and isinstance(e.func, ast.Attribute) and e.func.attr in ("split", "rsplit") and _is_name(e.func.value, self.entry)
+
+    def is_partition(self, e: ast.AST) -> bool:
+        return isinstance(e, ast.Call) and isinstance(e.func, ast.Attribute) and e.func.attr == "partition" and _is_name(e.func.value, self.entry) and len(e.args) == 1 and not e.keywords
 
     def lit(self, e: ast.expr) -> ast.expr:
         """Hoisted constants: a name bound once to a literal (outside the role names of this scope)."""
@@ -1287,6 +1302,8 @@ class _Forms:
         self.unknown |= sub.unknown
         self.split_sites += sub.split_sites
         self.split_calls += sub.split_calls
+        self.partition_calls += sub.partition_calls
+        self.partition_tails |= sub.partition_tails
 
     def _bind(self, st: ast.AST, tgt: ast.expr, val: ast.expr, extra: list[tuple[ast.expr, bool]]) -> None:
         if isinstance(val, ast.IfExp):  # a conditional expression is a branch
@@ -1294,6 +1311,13 @@ class _Forms:
             self._bind(st, tgt, val.orelse, extra + [(val.test, False)])
             return
         px = self.prefix
+        if isinstance(tgt, (ast.Tuple, ast.List)) and len(tgt.elts) == 3 and all(isinstance(x, ast.Name) for x in tgt.elts) and self.is_partition(val):
+            # head, _, tail = entry.partition("."): never raises; an entry without a dot gives (entry, "", "")
+            a, b = px + tgt.elts[0].id, px + tgt.elts[2].id  # type: ignore[union-attr]
+            self.heads.setdefault(a, set()).update({"split", "bare"})
+            self.tails.setdefault(b, set()).update({"split", ("const", "")})
+            self.partition_tails.add(b)
+            return
         if isinstance(tgt, (ast.Tuple, ast.List)) and len(tgt.elts) == 2 and all(isinstance(x, ast.Name) for x in tgt.elts):
             a, b = px + tgt.elts[0].id, px + tgt.elts[1].id  # type: ignore[union-attr]
             if self.is_split(val):
@@ -1331,6 +1355,12 @@ class _Forms:
         elif isinstance(self.lit(val), ast.Constant):
             val = self.lit(val)
             self.tails.setdefault(name, set()).add(("const", val.value))
+        elif isinstance(val, ast.Subscript) and self.is_partition(val.value) and isinstance(val.slice, ast.Constant) and val.slice.value in (0, 2):
+            if val.slice.value == 0:
+                self.heads.setdefault(name, set()).update({"split", "bare"})
+            else:
+                self.tails.setdefault(name, set()).update({"split", ("const", "")})
+                self.partition_tails.add(name)
         elif isinstance(val, ast.Subscript) and self.is_split(val.value) and isinstance(val.slice, ast.Constant) and val.slice.value in (0, 1):
             (self.heads if val.slice.value == 0 else self.tails).setdefault(name, set()).add("split")
             if val.slice.value == 1:
@@ -1348,6 +1378,10 @@ class _Forms:
             if all(p is not None and not p[2] for p in parts) and len({p[0] for p in parts}) == 1:  # type: ignore[index]
                 return parts[0][0], set().union(*[p[1] for p in parts]), False  # type: ignore[index]
             return None
+        core, flip = _strip_not(e)
+        if isinstance(core, ast.Name) and core.id in self.loopnames and core.id != self.entry and (self.prefix + core.id) in self.tails:
+            # `not tail`: the part after the dot is empty or None; plain `tail`: it is neither
+            return self.prefix + core.id, {"''", "None"}, not flip
         if not (isinstance(e, ast.Compare) and len(e.ops) == 1 and isinstance(e.left, ast.Name) and e.left.id in self.loopnames and e.left.id != self.entry):
             return None
         op, right = e.ops[0], e.comparators[0]
@@ -1534,8 +1568,11 @@ def _check_forms(isw: FunctionInfo, rep: Report, dotfree: bool, resolver=None) -
     fm.finish()
 
     # the split: on the first dot only, and only when there is a dot
-    if not fm.split_calls:
-        unsup.append("no `<entry>.split('.', 1)` found (entry decomposed in an unknown idiom)")
+    if not fm.split_calls and not fm.partition_calls:
+        unsup.append("no `<entry>.split('.', 1)` / `<entry>.partition('.')` found (entry decomposed in an unknown idiom)")
+    for c, cfi in fm.partition_calls:
+        if not is_const(_lit(c.args[0], cfi), "."):
+            viol.append((kf + "|split", cfi.module.site(c), f"the entry is partitioned on {unparse(c.args[0])}, not on '.'"))
     for c, cfi in fm.split_calls:
         sep, mx = _lit(arg_or_kw(c, 0, "sep"), cfi), _lit(arg_or_kw(c, 1, "maxsplit"), cfi)
         if not is_const(sep, "."):
@@ -1633,12 +1670,12 @@ def _check_forms(isw: FunctionInfo, rep: Report, dotfree: bool, resolver=None) -
                 bad_here = True
                 continue
             sent = {repr(c) for c in consts}
-            extra_vals = vals - sent - {"<subtype>", "'*'"}
+            extra_vals = vals - sent - {"<subtype>", "'*'"} - ({"None", "''"} if t in fm.partition_tails else set())
             if extra_vals:
                 viol.append((kf + "|sub-target values", msite(r), f"sub-target is compared with {sorted(vals)}, expected {{None, <subtype>, '*'}}: additional sub-targets {sorted(extra_vals)} are accepted"))
                 bad_here = True
                 continue
-            if consts and consts != {None} and case != "dotted":
+            if consts and not consts <= ({None, ""} if t in fm.partition_tails else {None}) and case != "dotted":
                 if sent <= vals:
                     unsup.append(f"bare-entry sentinel {sorted(sent)} instead of None (not understood)")
                     bad_here = True
@@ -1904,15 +1941,78 @@ def _use_kind(n: ast.Name, fi: FunctionInfo, _depth: int = 0):
     return None
 
 
+def _observes_children(test: ast.expr, text: str) -> ast.AST | None:
+    """Does this condition look at whether / how many children the node ``text`` has?"""
+    for n in ast.walk(test):
+        if isinstance(n, ast.Attribute) and n.attr == "children" and unparse(n.value) == text:
+            return n
+        if isinstance(n, ast.Call) and dotted(n.func) in ("len", "bool") and len(n.args) == 1 and unparse(n.args[0]) in (text, text + ".children"):
+            return n
+    core, _ = _strip_not(test)
+    if unparse(core) == text:
+        return core  # truth value of an Element = it has children
+    if isinstance(core, ast.BoolOp):
+        for v in core.values:
+            if unparse(_strip_not(v)[0]) == text:
+                return v
+    return None
+
+
+def _append_target_observed(fi: FunctionInfo, call: ast.Call) -> tuple[ast.AST, str] | None:
+    """``create_warning(..., append_to=X)`` followed, on some path, by a condition on X's children: the
+    condition's outcome depends on whether the message node was appended, i.e. on suppression."""
+    a = kwarg(call, "append_to")
+    if a is None or is_const(a, None) or fi.is_lambda:
+        return None
+    text = unparse(a)
+    root = text.split(".")[0].split("[")[0]
+    try:
+        cfg = get_cfg(fi)
+        start = cfg.stmt_of(call)
+    except Exception:
+        return None
+
+    def kills(n) -> bool:
+        """The name is rebound (a new node), or the node certainly gets another child: the test no longer tells."""
+        if isinstance(n, (ast.For, ast.AsyncFor)) and root in _names(n.target):
+            return True
+        if isinstance(n, ast.Assign) and any(unparse(t) in (text, root) for t in n.targets):
+            return True
+        if isinstance(n, ast.AugAssign) and unparse(n.target) == text:
+            return True
+        if isinstance(n, ast.Expr) and isinstance(n.value, ast.Call) and isinstance(n.value.func, ast.Attribute) and n.value.func.attr in ("append", "extend", "insert") and unparse(n.value.func.value) == text:
+            return True
+        return False
+
+    for st in fi.local_nodes():
+        test = getattr(st, "test", None) if isinstance(st, (ast.If, ast.While)) else None
+        holders = [(st, test)] if test is not None else []
+        if isinstance(st, ast.IfExp) or (isinstance(st, ast.Call) and dotted(st.func) in ("len", "bool") and len(st.args) == 1 and unparse(st.args[0]) in (text, text + ".children")):
+            try:  # a conditional expression, or the child count / emptiness taken as a value
+                holders = [(cfg.stmt_of(st), st.test if isinstance(st, ast.IfExp) else st)]
+            except Exception:
+                holders = []
+        for holder, tst in holders:
+            obs = _observes_children(tst, text)
+            if obs is None or holder is start:
+                continue
+            if cfg.paths_avoiding(start, holder, kills):
+                return tst, text
+    return None
+
+
 @rule("C14.R5")
 def r5_return_value_unused(corpus: Corpus, rep: Report, tier: str):
-    rep.rule("C14.R5", "the value returned by create_warning is only discarded, returned by a wrapper, or placed in a list; nothing else depends on it")
+    rep.rule("C14.R5", "the value returned by create_warning is only discarded, returned by a wrapper, or placed in a list, and the node given as append_to is not tested for children afterwards; nothing else depends on the warning")
     em = _emissions(corpus)
     for fi, call, kind in em.sites:
         if kind not in ("create_warning()", "renderer.create_warning()"):
             continue
         k = f"{stmt_key(fi, call, 90)}"
         status, site, what = _judge_result(em, fi, call, 0)
+        obs = _append_target_observed(fi, call)
+        if obs is not None:
+            rep.violation("C14.R5", f"{fi.fq}|append_to={obs[1]} tested after create_warning|{short(obs[0], 60)}", fi.module.site(obs[0]), f"`{short(obs[0], 50)}` is evaluated after the message node may have been appended to `{obs[1]}` (append_to): its outcome, and what it guards, depends on whether the warning was suppressed")
         if status == "ok":
             rep.ok("C14.R5", k, site, what)
         elif status == "violation":
@@ -2192,7 +2292,148 @@ def em_resolves_to(corpus: Corpus, call: ast.Call, fi: FunctionInfo, target: Fun
         return dotted(call.func) == target.name
 
 
-RULES = [r1_typed_emission, r2_untyped_closed_list, r3_no_member_loses_last_site, r4_suppression_confined, r5_return_value_unused, r6_tag_format]
+# -- R7: the documented catalogue -------------------------------------------------------------
+
+_WHOLE_ITER = {"list", "tuple", "sorted", "reversed", "iter"}
+
+
+def _doc_source(e: ast.expr, fi: FunctionInfo) -> str | None:
+    """What a comprehension over ``e`` yields: 'member' (the enum members), 'name' (member names),
+    'attr_docs_items' / 'attr_docs_keys' (sphinx ModuleAnalyzer.attr_docs: {(class qualname, attribute NAME): doc lines})."""
+    if isinstance(e, ast.Call) and isinstance(e.func, ast.Name) and e.func.id in _WHOLE_ITER and e.args:
+        return _doc_source(e.args[0], fi)
+    d = dotted(e)
+    if d is not None and fi.module.resolve(d).endswith("warnings_.MystWarnings"):
+        return "member"
+    if isinstance(e, ast.Call) and isinstance(e.func, ast.Attribute) and not e.args:
+        base = dotted(e.func.value) or ""
+        if base.endswith("__members__") and fi.module.resolve(base.rsplit(".", 1)[0]).endswith("warnings_.MystWarnings"):
+            return {"values": "member", "keys": "name", "items": "members_items"}.get(e.func.attr)
+        if isinstance(e.func.value, ast.Attribute) and e.func.value.attr == "attr_docs":
+            return {"items": "attr_docs_items", "keys": "attr_docs_keys"}.get(e.func.attr)
+    if d is not None and d.endswith("__members__") and fi.module.resolve(d.rsplit(".", 1)[0]).endswith("warnings_.MystWarnings"):
+        return "name"
+    if isinstance(e, ast.Attribute) and e.attr == "attr_docs":
+        return "attr_docs_keys"
+    return None
+
+
+def _target_path(tgt: ast.expr, name: str) -> tuple[int, ...] | None:
+    if isinstance(tgt, ast.Name):
+        return () if tgt.id == name else None
+    if isinstance(tgt, (ast.Tuple, ast.List)):
+        for i, x in enumerate(tgt.elts):
+            p = _target_path(x, name)
+            if p is not None:
+                return (i,) + p
+    return None
+
+
+def _doc_tag_function(e: ast.expr, comp_stack: list, fi: FunctionInfo, depth: int = 0):
+    """The documented tag as a function of (member name, member value), or (None, why)."""
+    if depth > 6:
+        return None, "nesting too deep"
+    if isinstance(e, ast.Call) and isinstance(e.func, ast.Attribute) and e.func.attr in ("lower", "upper", "strip", "casefold") and not e.args and not e.keywords:
+        f, why = _doc_tag_function(e.func.value, comp_stack, fi, depth + 1)
+        attr = e.func.attr
+        return ((lambda n, v, f=f, attr=attr: getattr(f(n, v), attr)()) if f else None), why
+    if isinstance(e, ast.Call) and dotted(e.func) == "str" and len(e.args) == 1:
+        return _doc_tag_function(e.args[0], comp_stack, fi, depth + 1)
+    base, attr = (e.value, e.attr) if isinstance(e, ast.Attribute) else (e, None)
+    if not isinstance(base, ast.Name):
+        return None, f"tag computed as {short(e, 40)}"
+    # find the comprehension that binds the name
+    for idx in range(len(comp_stack) - 1, -1, -1):
+        comp, owner = comp_stack[idx]
+        path = _target_path(comp.target, base.id)
+        if path is None:
+            continue
+        if comp.ifs and not all(_harmless_doc_filter(c) for c in comp.ifs):
+            return None, f"the list is filtered by `{short(comp.ifs[0], 40)}`"
+        src = _doc_source(comp.iter, fi)
+        if src == "member" and path == ():
+            if attr == "value":
+                return (lambda n, v: v), ""
+            if attr == "name":
+                return (lambda n, v: n), ""
+            return None, f"member rendered as {short(e, 30)}"
+        if (src == "name" and path == ()) or (src == "members_items" and path == (0,)) or (src == "attr_docs_items" and path == (0, 1)) or (src == "attr_docs_keys" and path == (1,)):
+            if attr is None:
+                return (lambda n, v: n), ""
+            return None, f"member name rendered as {short(e, 30)}"
+        if src == "members_items" and path == (1,):
+            if attr == "value":
+                return (lambda n, v: v), ""
+            if attr == "name":
+                return (lambda n, v: n), ""
+        if src is None and attr is None:
+            # iterating an intermediate list of tuples built by another comprehension
+            it = comp.iter
+            if isinstance(it, ast.Name):
+                defs = [n for n in fi.local_nodes() if isinstance(n, ast.Assign) and len(n.targets) == 1 and _is_name(n.targets[0], it.id)]
+                it = defs[0].value if len(defs) == 1 else it
+            if isinstance(it, (ast.ListComp, ast.GeneratorExp)) and len(it.generators) == 1:
+                elt = it.elt
+                for i in path:
+                    if isinstance(elt, (ast.Tuple, ast.List)) and i < len(elt.elts):
+                        elt = elt.elts[i]
+                    else:
+                        return None, "intermediate list elements are not tuples"
+                return _doc_tag_function(elt, comp_stack[:idx] + [(it.generators[0], it)], fi, depth + 1)
+        return None, f"iteration over `{short(comp.iter, 40)}` not understood"
+    return None, f"`{base.id}` is not bound by a comprehension over the catalogue"
+
+
+def _harmless_doc_filter(c: ast.expr) -> bool:
+    """``if cls_name == qname``: selects the attribute docs of the enum class."""
+    return isinstance(c, ast.Compare) and len(c.ops) == 1 and isinstance(c.ops[0], ast.Eq) and isinstance(c.left, ast.Name) and isinstance(c.comparators[0], ast.Name)
+
+
+@rule("C14.R7")
+def r7_documented_catalogue(corpus: Corpus, rep: Report, tier: str):
+    rep.rule("C14.R7", "the documented catalogue (myst-warnings directive) lists, for every enum member, the tag myst.<member value> that is emitted")
+    R = "C14.R7"
+    em = _emissions(corpus)
+    f = corpus.func("_docs:MystWarningsDirective.run")
+    k = f"{f.fq}|documented tag"
+    found = []
+    for js in (n for n in f.local_nodes() if isinstance(n, ast.JoinedStr)):
+        for i, v in enumerate(js.values[:-1]):
+            if isinstance(v, ast.Constant) and isinstance(v.value, str) and v.value.lower().endswith("myst.") and isinstance(js.values[i + 1], ast.FormattedValue):
+                found.append((js, v.value, js.values[i + 1].value))
+    if len(found) != 1:
+        rep.error(R, f"{f.qualname}: expected one f-string rendering 'myst.<tag>', found {len(found)} (catalogue rendered in an unknown idiom)")
+        return
+    js, prefix, hole = found[0]
+    site = f.module.site(js)
+    if not prefix.endswith("myst."):
+        rep.violation(R, k + "|type", site, f"the catalogue documents the tags under {prefix[-5:]!r} instead of 'myst.'")
+        return
+    stack = []
+    for a in reversed(list(ancestors(js))):
+        if isinstance(a, (ast.ListComp, ast.GeneratorExp, ast.SetComp)):
+            stack += [(g, a) for g in a.generators]
+    fn, why = _doc_tag_function(hole, stack, f)
+    if fn is None:
+        rep.error(R, f"{f.qualname}: cannot decide which string is documented as the tag: {why}")
+        return
+    wrong = []
+    for name, value in em.members.items():
+        try:
+            doc = fn(name, value)
+        except Exception as e:  # a transform that does not apply to str
+            rep.error(R, f"{f.qualname}: documented tag not computable ({type(e).__name__})")
+            return
+        if doc != value:
+            wrong.append((name, doc, value))
+    if wrong:
+        n, d, v = wrong[0]
+        rep.violation(R, k, site, f"the catalogue documents {len(wrong)} of {len(em.members)} tags that are never emitted, e.g. member {n} is documented as myst.{d} but emitted as myst.{v}: the documented tag does not suppress the warning")
+    else:
+        rep.ok(R, k, site, f"`myst.<member.value>` for each of the {len(em.members)} members")
+
+
+RULES = [r1_typed_emission, r2_untyped_closed_list, r3_no_member_loses_last_site, r4_suppression_confined, r5_return_value_unused, r6_tag_format, r7_documented_catalogue]
 
 
 def mutants(corpus: Corpus):
@@ -2288,6 +2529,13 @@ def mutants(corpus: Corpus):
             out.append(Mutant("c14-condexpr-arms-exchanged", "C14.R4", w.rel, splice(w.src, ifs, f"{unparse(a_t.targets[0])} = ({unparse(a_f.value)}) if {unparse(dot)} else ({unparse(a_t.value)})"), expect="bare type"))
         else:
             out.append(("c14-condexpr-arms-exchanged", "the two branches assign different targets"))
+    if dot is not None and isinstance(parent(dot), ast.If) and len(parent(dot).body) == 1 and isinstance(parent(dot).body[0], ast.Assign) and isinstance(parent(dot).body[0].targets[0], ast.Tuple) and len(parent(dot).body[0].targets[0].elts) == 2:
+        # (seed class) the decomposition 'simplified' to str.partition: a bare entry now gets '' instead of None
+        ifs = parent(dot)
+        a_, b_ = (unparse(x) for x in ifs.body[0].targets[0].elts)
+        out.append(Mutant("c14-partition-bare-sentinel-lost", "C14.R4", w.rel, splice(w.src, ifs, f"{a_}, _, {b_} = {unparse(dot.comparators[0])}.partition('.')"), expect="bare type"))
+    else:
+        out.append(("c14-partition-bare-sentinel-lost", "the entry is no longer decomposed by `if '.' in entry: a, b = entry.split(...)`"))
     loop = find_node(f, lambda n: isinstance(n, ast.For) and p_list is not None and unparse(n.iter) == p_list)
     ifst = None
     if loop is not None:
@@ -2337,6 +2585,26 @@ def mutants(corpus: Corpus):
             break
     if bo is None:
         out.append(("c14-other-messages-lost-when-suppressed", "no `([x] if x else []) + ...` in base.py"))
+    # 6c. the node given as append_to is tested for children after the call
+    f = base.func("DocutilsRenderer.render_s")
+    st = find_node(f, lambda n: isinstance(n, ast.Expr) and isinstance(n.value, ast.Call) and unparse(n.value.func) == "self.create_warning" and kwarg(n.value, "append_to") is not None)
+    if st is not None:
+        seg = ast.get_source_segment(base.src, st)
+        tgt_ = unparse(kwarg(st.value, "append_to"))
+        i = ind_of(base, st)
+        out.append(Mutant("c14-append-target-tested-afterwards", "C14.R5", base.rel, splice(base.src, st, f"{seg}\n{i}if not {tgt_}.children:\n{i}    return"), expect="tested after create_warning"))
+        out.append(Mutant("c14-append-target-length-tested", "C14.R5", base.rel, splice(base.src, st, f"{seg}\n{i}first = len({tgt_}) == 1"), expect="tested after create_warning"))
+    else:
+        out.append(("c14-append-target-tested-afterwards", "render_s no longer passes append_to= to create_warning"))
+    # 6d. the documented catalogue
+    dm = corpus.mod("_docs")
+    f = dm.func("MystWarningsDirective.run")
+    c = find_node(f, lambda n: isinstance(n, ast.Attribute) and n.attr == "value" and isinstance(n.value, ast.Name) and any(isinstance(a, (ast.ListComp, ast.GeneratorExp)) for a in ancestors(n)))
+    if c is not None:
+        out.append(Mutant("c14-docs-list-member-names", "C14.R7", dm.rel, splice(dm.src, c, f"{unparse(c.value)}.name.lower()"), expect="documented tag"))
+        out.append(Mutant("c14-docs-list-member-names-raw", "C14.R7", dm.rel, splice(dm.src, c, f"{unparse(c.value)}.name"), expect="documented tag"))
+    else:
+        out.append(("c14-docs-list-member-names", "the directive no longer renders <member>.value in a comprehension"))
     # 7. suppress list read elsewhere
     f = base.func("DocutilsRenderer.render_hr")
     out.append(Mutant("c14-suppress-list-read-in-renderer", "C14.R4", base.rel, splice(base.src, f.node.body[0], "if 'myst.hr' in self.md_config.suppress_warnings:\n            return\n        " + ast.get_source_segment(base.src, f.node.body[0])), expect="render_hr"))
